@@ -642,10 +642,21 @@ class ChildTokVal(AbstractValue):
     def __init__(self, kind):
         self.kind = kind
         self.prov = ('child', kind)
+        self._kids = None
 
     def abs_getattr(self, interp, name):
         if name == '__class__':
             return ChildClass()
+        if name == 'content':
+            # whatever the child is, its content is text of the document
+            return Taint('child.content')
+        if name == 'children':
+            # a leaf, or a container of further children (an explicit-stack walk reads these)
+            if interp.oracle.decide(('cond', ('child-leaf', id(self))), 'child-is-leaf'):
+                return None
+            if self._kids is None:
+                self._kids = RenderChildren(self.kind, self)
+            return self._kids
         return Unknown('child.' + name)
 
     def abs_isinstance(self, interp, c):
